@@ -60,6 +60,45 @@ type OpResult struct {
 	ClosedEr []error
 }
 
+// A multi-pass call whose context is cancelled while it runs: op.CancelAt = -1 cancels before the
+// call, k > 0 inside the k-th invocation of the backoff (which itself ignores the context and
+// returns nil, as a caller's own backoff may). The drivers do not look at the context themselves:
+// whatever they executed must be in what they return.
+type opCancel struct {
+	ctx     context.Context
+	backoff func(context.Context) error
+}
+
+var opCancels = map[*Op]*opCancel{}
+var opCancelsMu sync.Mutex
+
+func ctxFor(op *Op) (context.Context, func()) {
+	if op.CancelAt == 0 {
+		return context.Background(), func() {}
+	}
+	ctx, cancel := context.WithCancel(context.Background())
+	calls := 0
+	oc := &opCancel{ctx: ctx, backoff: func(context.Context) error {
+		calls++
+		if calls == op.CancelAt {
+			cancel()
+		}
+		return nil
+	}}
+	if op.CancelAt < 0 {
+		cancel()
+	}
+	opCancelsMu.Lock()
+	opCancels[op] = oc
+	opCancelsMu.Unlock()
+	return ctx, func() {
+		cancel()
+		opCancelsMu.Lock()
+		delete(opCancels, op)
+		opCancelsMu.Unlock()
+	}
+}
+
 var tooBigOnce sync.Once
 var tooBigBuf []byte
 
@@ -77,6 +116,12 @@ var errStopBackoff = errors.New("verif: backoff stops the multi-pass delete")
 
 // backoffFor returns the backoff of a multi-pass call: it fails on its op.StopAfter-th invocation.
 func backoffFor(op *Op) func(context.Context) error {
+	if op.CancelAt != 0 {
+		// handled by ctxFor: this backoff only counts
+		opCancelsMu.Lock()
+		defer opCancelsMu.Unlock()
+		return opCancels[op].backoff
+	}
 	if op.StopAfter == 0 {
 		return noBackoff
 	}
@@ -107,7 +152,8 @@ func (h *Hist) tmpDir(tag string) string {
 // exec runs one op against the real log. It never touches the model.
 func (h *Hist) exec(op *Op) *OpResult {
 	res := &OpResult{}
-	ctx := context.Background()
+	ctx, done := ctxFor(op)
+	defer done()
 	l := h.log
 	switch op.Kind {
 	case "publish":
@@ -119,7 +165,9 @@ func (h *Hist) exec(op *Op) *OpResult {
 			}
 		}
 		if op.TooBig > 0 {
-			msgs[op.TooBig-1].Value = tooBigValue()
+			// one byte beyond the bound counting key and value together: with a key the value alone
+			// stays within it
+			msgs[op.TooBig-1].Value = tooBigValue()[:64*1024*1024+1-len(msgs[op.TooBig-1].Key)]
 			h.cov.Add("publish_with_oversized_message", 1)
 		}
 		res.Stage = "publish"
@@ -175,6 +223,13 @@ func (h *Hist) exec(op *Op) *OpResult {
 		res.Stopped, res.Err = true, nil
 		h.cov.Add("multi_stopped", 1)
 	}
+	if op.CancelAt != 0 {
+		h.cov.Add("multi_context_cancelled", 1)
+		if errors.Is(res.Err, context.Canceled) {
+			// allowed to stop early with the context's error; what it returns is then the partial result
+			res.Stopped, res.Err = true, nil
+		}
+	}
 	if res.HaveMsgs || res.Deleted != nil {
 		res.DelOffs = map[int64]struct{}{}
 		for _, m := range res.Deleted {
@@ -193,13 +248,13 @@ func (h *Hist) execTrim(ctx context.Context, op *Op, res *OpResult) {
 		var err error
 		switch op.Sub {
 		case "offset":
-			res.Found, err = klevdb.FindByOffset(ctx, l, op.N)
+			res.Found, err = klevdb.FindByOffset(context.Background(), l, op.N)
 		case "count":
-			res.Found, err = klevdb.FindByCount(ctx, l, int(op.N))
+			res.Found, err = klevdb.FindByCount(context.Background(), l, int(op.N))
 		case "size":
-			res.Found, err = klevdb.FindBySize(ctx, l, op.N)
+			res.Found, err = klevdb.FindBySize(context.Background(), l, op.N)
 		case "age":
-			res.Found, err = klevdb.FindByAge(ctx, l, before)
+			res.Found, err = klevdb.FindByAge(context.Background(), l, before)
 		}
 		return err
 	})
@@ -264,9 +319,9 @@ func (h *Hist) execCompact(ctx context.Context, op *Op, res *OpResult) {
 	res.FoundErr = guard(func() error {
 		var err error
 		if op.Sub == "updates" {
-			res.Found, err = klevdb.FindUpdates(ctx, l, before)
+			res.Found, err = klevdb.FindUpdates(context.Background(), l, before)
 		} else {
-			res.Found, err = klevdb.FindDeletes(ctx, l, before)
+			res.Found, err = klevdb.FindDeletes(context.Background(), l, before)
 		}
 		return err
 	})
